@@ -52,6 +52,7 @@ type OPTarget struct {
 	Refs     []string `json:"refs,omitempty"`      // secret ids
 	Select   string   `json:"select,omitempty"`    // "" | newest_valid | oldest_valid
 	SigH     string   `json:"sig_h,omitempty"`     // custom signature header
+	TsH      string   `json:"ts_h,omitempty"`      // custom timestamp header
 	Partial  bool     `json:"partial,omitempty"`   // a deliver block with a timeout but no retry line
 	PathTail string   `json:"path_tail,omitempty"` // extra path segment (escaping)
 	// Route: 0 = /fan, 1 = /fan2. ShareURL: a target of /fan2 that has the very URL of target 0 (of /fan),
@@ -70,8 +71,13 @@ type OPCase struct {
 	// Reload: after the first round the config file is rewritten and the process gets SIGHUP:
 	// "add-route" only adds a pull route; "expire-secret" also moves the valid_until of ExpireID into
 	// the past. Then a second round is delivered and judged by whichever configuration is in force.
-	Reload   string `json:"reload,omitempty"`
-	ExpireID string `json:"expire_id,omitempty"`
+	// "edit-outbound" changes something only the dispatcher reads - the prefix length of an egress CIDR
+	// rule (NewDeny), the name of a signature or timestamp header (NewTargets) - which a reload may apply
+	// only if the running dispatcher follows; otherwise it has to be refused as needing a restart.
+	Reload     string     `json:"reload,omitempty"`
+	ExpireID   string     `json:"expire_id,omitempty"`
+	NewDeny    []string   `json:"new_deny,omitempty"`
+	NewTargets []OPTarget `json:"new_targets,omitempty"`
 }
 
 var (
@@ -225,9 +231,54 @@ func genOPCase(focus string) *rapid.Generator[OPCase] {
 				}
 			}
 		}
+		if c.Reload == "" && rapid.IntRange(0, 7).Draw(t, "edit_outbound") == 0 || (focus == "C16" || focus == "C17" || focus == "C18") && c.Reload == "" && rapid.IntRange(0, 3).Draw(t, "edit_outbound2") == 0 {
+			c.Reload = "edit-outbound"
+			kind := rapid.IntRange(0, 2).Draw(t, "edit_kind")
+			if focus == "C16" {
+				kind = 0
+			}
+			if focus == "C17" && kind == 0 {
+				kind = 1
+			}
+			signing := -1
+			for k, tg := range c.Targets {
+				if tg.Sign != "" {
+					signing = k
+				}
+			}
+			if kind > 0 && signing < 0 {
+				kind = 0
+			}
+			switch kind {
+			case 0: // the prefix length of a deny rule on 127.0.0.0 changes (the loopback targets are .1 .2 .3)
+				widths := []string{"127.0.0.0/32", "127.0.0.0/30", "127.0.0.0/8"}
+				from := rapid.SampledFrom(widths).Draw(t, "width_old")
+				to := rapid.SampledFrom(widths).Draw(t, "width_new")
+				if to == from {
+					to = widths[(rapid.IntRange(0, 1).Draw(t, "width_shift")+1+indexOf(widths, from))%3]
+				}
+				c.Deny = append([]string{from}, c.Deny...)
+				c.NewDeny = append([]string{to}, c.Deny[1:]...)
+			case 1:
+				c.NewTargets = append([]OPTarget(nil), c.Targets...)
+				c.NewTargets[signing].TsH = "X-Ts-New"
+			case 2:
+				c.NewTargets = append([]OPTarget(nil), c.Targets...)
+				c.NewTargets[signing].SigH = "X-Sig-New"
+			}
+		}
 		c.Body = []byte(rapid.SampledFrom([]string{"{}", "{\"k\":1}", "", "\x00\xff binary"}).Draw(t, "body"))
 		return c
 	})
+}
+
+func indexOf(l []string, s string) int {
+	for i, x := range l {
+		if x == s {
+			return i
+		}
+	}
+	return 0
 }
 
 func opRetryLine(max int) string {
@@ -309,6 +360,7 @@ func runOutboundProcess(c OPCase, prop string) *fOutcome {
 		}
 	}
 
+	view := c // the settings the texts are written from and the deliveries are judged by
 	var cfg strings.Builder
 	build := func(pIn, pAdmin, pPull int, secrets []OPVersion, extraRoute bool) {
 		cfg.Reset()
@@ -325,10 +377,10 @@ func runOutboundProcess(c OPCase, prop string) *fOutcome {
 			cfg.WriteString("}\n")
 		}
 		cfg.WriteString("defaults {\n  egress {\n    https_only off\n    dns_rebind_protection off\n")
-		for _, r := range c.Allow {
+		for _, r := range view.Allow {
 			fmt.Fprintf(&cfg, "    allow %s\n", q(r))
 		}
-		for _, r := range c.Deny {
+		for _, r := range view.Deny {
 			fmt.Fprintf(&cfg, "    deny %s\n", q(r))
 		}
 		fmt.Fprintf(&cfg, "  }\n  deliver {\n    %s\n    timeout 20s\n  }\n}\n", opRetryLine(c.DefMax))
@@ -337,7 +389,7 @@ func runOutboundProcess(c OPCase, prop string) *fOutcome {
 				continue
 			}
 			fmt.Fprintf(&cfg, "%s {\n", rn)
-			for k, tg := range c.Targets {
+			for k, tg := range view.Targets {
 				if tg.Route != ri {
 					continue
 				}
@@ -361,6 +413,9 @@ func runOutboundProcess(c OPCase, prop string) *fOutcome {
 				}
 				if tg.SigH != "" {
 					fmt.Fprintf(&cfg, "    sign signature_header %s\n", q(tg.SigH))
+				}
+				if tg.TsH != "" {
+					fmt.Fprintf(&cfg, "    sign timestamp_header %s\n", q(tg.TsH))
 				}
 				cfg.WriteString("  }\n")
 			}
@@ -562,7 +617,7 @@ func runOutboundProcess(c OPCase, prop string) *fOutcome {
 		for _, v := range secrets {
 			verByID[v.ID] = v
 		}
-		for k, tg := range c.Targets {
+		for k, tg := range view.Targets {
 			body := bodyOf(tg.Route, tag)
 			opMu.Lock()
 			var reqs []opReq
@@ -581,14 +636,14 @@ func runOutboundProcess(c OPCase, prop string) *fOutcome {
 
 			// ---- C16: egress policy
 			denied := false
-			for _, r := range c.Deny {
+			for _, r := range view.Deny {
 				if opMatch(r, tg.Host) {
 					denied = true
 				}
 			}
-			if !denied && len(c.Allow) > 0 {
+			if !denied && len(view.Allow) > 0 {
 				denied = true
-				for _, r := range c.Allow {
+				for _, r := range view.Allow {
 					if r == "*" || opMatch(r, tg.Host) {
 						denied = false
 					}
@@ -596,18 +651,18 @@ func runOutboundProcess(c OPCase, prop string) *fOutcome {
 			}
 			if denied {
 				out.Labels["policy-denied-target"] = true
-				if len(c.Deny)+len(c.Allow) >= 2 {
+				if len(view.Deny)+len(view.Allow) >= 2 {
 					out.Labels["policy-several-rules"] = true
 					if prop == "C16" {
 						out.NonTriv = true
 					}
 				}
 				if len(reqs) > 0 {
-					out.Failure = ffail("C16", "request-to-denied-target", k, "the egress policy (allow %v deny %v) denies %s but %s", c.Allow, c.Deny, tg.Host, desc)
+					out.Failure = ffail("C16", "request-to-denied-target", k, "the egress policy (allow %v deny %v) denies %s but %s", view.Allow, view.Deny, tg.Host, desc)
 					return false
 				}
 				if !isDead || d.Reason != "policy_denied" {
-					out.Failure = ffail("C16,C06", "denied-not-dead-lettered", k, "the egress policy (allow %v deny %v) denies %s: want dead:policy_denied; %s", c.Allow, c.Deny, tg.Host, desc)
+					out.Failure = ffail("C16,C06", "denied-not-dead-lettered", k, "the egress policy (allow %v deny %v) denies %s: want dead:policy_denied; %s", view.Allow, view.Deny, tg.Host, desc)
 					return false
 				}
 				continue
@@ -664,7 +719,7 @@ func runOutboundProcess(c OPCase, prop string) *fOutcome {
 			case tg.Behave >= 200 && tg.Behave <= 299:
 			case tg.Behave == 408 || tg.Behave == 429 || tg.Behave >= 500:
 				wantReqs, wantEnd = effMax+1, "dead:max_retries"
-				if tg.RetryMax < 0 && len(c.Targets) > 1 {
+				if tg.RetryMax < 0 && len(view.Targets) > 1 {
 					out.Labels["retry-inherited-next-to-override"] = true
 				}
 				if prop == "C06" {
@@ -690,12 +745,15 @@ func runOutboundProcess(c OPCase, prop string) *fOutcome {
 			}
 			out.Labels["end-"+strings.SplitN(gotEnd, ":", 2)[0]] = true
 			// ---- C17: every request that was sent carries the right signature over what was sent
-			sigH := "X-Hookaido-Signature"
+			sigH, tsH := "X-Hookaido-Signature", "X-Hookaido-Timestamp"
 			if tg.SigH != "" {
 				sigH = tg.SigH
 			}
+			if tg.TsH != "" {
+				tsH = tg.TsH
+			}
 			for i, r := range reqs {
-				tsv, sigv := r.Header.Values("X-Hookaido-Timestamp"), r.Header.Values(sigH)
+				tsv, sigv := r.Header.Values(tsH), r.Header.Values(sigH)
 				if !signing {
 					if len(sigv) > 0 && tg.ShareURL {
 						out.Failure = ffail("C17", "signed-though-unconfigured", k, "request %d carries a signature although this route's target has no signing configured; %s", i, desc)
@@ -743,6 +801,14 @@ func runOutboundProcess(c OPCase, prop string) *fOutcome {
 			}
 		}
 	}
+	if c.Reload == "edit-outbound" {
+		if c.NewDeny != nil {
+			view.Deny = c.NewDeny
+		}
+		if len(c.NewTargets) == len(c.Targets) {
+			view.Targets = c.NewTargets
+		}
+	}
 	build(pIn, pAdmin, pPull, newSecrets, true)
 	if err := os.WriteFile(cfgPath, []byte(cfg.String()), 0o600); err != nil {
 		out.Failure = ffail("HARNESS", "write", 0, "%v", err)
@@ -766,6 +832,7 @@ func runOutboundProcess(c OPCase, prop string) *fOutcome {
 		out.Labels["reload-not-applied"] = true
 		cfg.Reset()
 		cfg.WriteString(firstCfg)
+		view = c
 	}
 	out.Labels["reload-"+c.Reload] = true
 	ok2 := round("@2", inForce)
